@@ -142,7 +142,7 @@ def program(ds: DSpec, pname, tier):
         items.append("vis(%s)" % ds.vis)
     if ds.dderives:
         items.append("derive(%s)" % ", ".join(ds.dderives))
-    spec.raw_attrs = (["#[strum_discriminants(%s)]" % ", ".join(items)] if items else []) + list(ds.extra)
+    spec.raw_attrs = list(spec.raw_attrs) + (["#[strum_discriminants(%s)]" % ", ".join(items)] if items else []) + list(ds.extra)
     E = spec.ty()
     R = spec.repr if spec.repr in INT_TYPES else "isize"
     nv = len(spec.variants)
